@@ -125,18 +125,70 @@ def consumers_view(I, created, lo=None):
 
 
 def inspect_inv2(I, frame, i, seq):
+    if I.interference:
+        # other requests change the consumers table between transactions: the
+        # "entry table + created" view only makes sense sequentially (C04)
+        return inspect_inv(I, frame, i, seq)
     return inspect_inv(I, frame, i, seq) + consumers_view(
         I, frame.locals['new_consumers_created'])
 
 
 def delete_consumers_inv(I, frame, i, seq):
     created = frame.locals['consumers']
-    if 'consumers0' not in I.ghost or not isinstance(created, SList):
+    if I.interference or 'consumers0' not in I.ghost or \
+            not isinstance(created, SList):
         return []
     return consumers_view(I, created, lo=i)
 
 
+# --- lists of Allocation objects built by the handlers --------------------------
+def allocs_carry(I, lst, consumer=None, provider=None, positive=True):
+    """every element of lst carries the given consumer / provider object"""
+    q = z3.Int('q!carry')
+    a = z3.Select(lst.arr, q)
+    fs = []
+    if consumer is not None:
+        fs.append(z3.Select(I.fld(ALLOC, 'consumer'), a) == consumer.ref)
+    if provider is not None:
+        fs.append(z3.Select(I.fld(ALLOC, 'resource_provider'), a) == provider.ref)
+    if positive:
+        fs.append(z3.Select(I.fld(ALLOC, 'used'), a) >= 1)
+    else:
+        fs.append(z3.Select(I.fld(ALLOC, 'used'), a) >= 0)
+    if not fs:
+        return []
+    return [ops.forall([q], z3.Implies(z3.And(q >= 0, q < lst.len), z3.And(*fs)),
+                       patterns=[z3.Select(lst.arr, q)])]
+
+
+def new_allocations_inv(I, frame, i, seq):
+    lst = frame.locals['allocations']
+    return allocs_carry(I, lst, frame.locals['consumer'],
+                        frame.locals['resource_provider'])
+
+
+def sac_empty_inv(I, frame, i, seq):
+    """_set_allocations_for_consumer, emptying path"""
+    return allocs_carry(I, frame.locals['allocation_objects'],
+                        frame.locals['consumer'], positive=False)
+
+
+def sac_fill_inv(I, frame, i, seq):
+    return allocs_carry(I, frame.locals['allocation_objects'],
+                        frame.locals['consumer'], positive=False)
+
+
 LOOPS = {
+    ('_set_allocations_for_consumer', 2): LoopSpec(
+        invariant=sac_empty_inv, name='H.sac.empty',
+        keep=('consumer', 'context', 'req'),
+        modifies_fields=(('Allocation', 'used'), ('Allocation', 'consumer'))),
+    ('_set_allocations_for_consumer', 3): LoopSpec(
+        invariant=sac_fill_inv, name='H.sac.fill',
+        keep=('consumer', 'context', 'req', 'rp_objs')),
+    ('_new_allocations', 1): LoopSpec(
+        invariant=new_allocations_inv, name='H.new_allocations',
+        keep=('consumer', 'resource_provider', 'resources', 'context')),
     ('delete_consumers', 1): LoopSpec(
         invariant=delete_consumers_inv, name='H.delete_consumers',
         keep=('consumers',), modifies_db=('consumers',)),
